@@ -587,9 +587,33 @@ class BoolUnx(Exception):
     pass
 
 
-def bool_eval(e, classify, env):
+def local_inits(body):
+    """name -> initialiser of every immutable `let name = <expr>;` under body (a named sub-expression)"""
+    out, dup = {}, set()
+    for st in walk(body, pats=False):
+        if st.get("k") == "Let" and st["pat"].get("k") == "PBinding" and st.get("init") is not None and st.get("els") is None:
+            if ", Mut)" in (st["pat"].get("mode") or ""):
+                continue
+            nm = st["pat"]["name"]
+            if nm in out:
+                dup.add(nm)
+            out[nm] = st["init"]
+    for nm in dup:
+        out.pop(nm, None)   # shadowed names are ambiguous: not expanded
+    return out
+
+
+def walk_expanded(e, lets, depth=0):
+    """the nodes of e, and of the initialisers of the named locals it mentions (transitively, closures included)"""
+    for n in walk(e, pats=False):
+        yield n
+        if n.get("k") == "Path" and n.get("res_kind") == "Local" and lets and n.get("res") in lets and depth < 3:
+            yield from walk_expanded(lets[n["res"]], lets, depth + 1)
+
+
+def bool_eval(e, classify, env, lets=None, depth=0):
     """truth value of a HIR condition built from `&&`, `||`, `!`, `== true/false` over atoms; `classify(expr)` names an atom
-    (looked up in env) or returns None"""
+    (looked up in env) or returns None. With `lets` (see local_inits) a named boolean stands for its initialiser."""
     e = peel(e)
     while e.get("k") in ("DropTemps", "Use") or (e.get("k") == "Block" and not e.get("stmts") and e.get("expr") is not None):
         e = peel(e["e"] if e.get("k") != "Block" else e["expr"])
@@ -601,17 +625,53 @@ def bool_eval(e, classify, env):
     k = e.get("k")
     if k == "Lit" and e["lit"]["t"] == "bool":
         return e["lit"]["v"]
+    if k == "Path" and e.get("res_kind") == "Local" and lets and e.get("res") in lets and depth < 4:
+        return bool_eval(lets[e["res"]], classify, env, lets, depth + 1)
     if k == "Unary" and e["op"] == "Not":
-        return not bool_eval(e["a"], classify, env)
+        return not bool_eval(e["a"], classify, env, lets, depth)
     if k == "Binary" and e["op"] in ("And", "Or"):
-        x = bool_eval(e["a"], classify, env)
-        y = bool_eval(e["b"], classify, env)
+        x = bool_eval(e["a"], classify, env, lets, depth)
+        y = bool_eval(e["b"], classify, env, lets, depth)
         return (x and y) if e["op"] == "And" else (x or y)
     if k == "Binary" and e["op"] in ("Eq", "Ne"):
-        x = bool_eval(e["a"], classify, env)
-        y = bool_eval(e["b"], classify, env)
+        x = bool_eval(e["a"], classify, env, lets, depth)
+        y = bool_eval(e["b"], classify, env, lets, depth)
         return (x == y) if e["op"] == "Eq" else (x != y)
     raise BoolUnx(ekey(e)[:60])
+
+
+def bool3(e, classify, env, lets=None, depth=0):
+    """three-valued version of bool_eval: atoms missing from env (and anything not understood) are unknown (None)"""
+    e = peel(e)
+    while e.get("k") in ("DropTemps", "Use") or (e.get("k") == "Block" and not e.get("stmts") and e.get("expr") is not None):
+        e = peel(e["e"] if e.get("k") != "Block" else e["expr"])
+    a = classify(e)
+    if a is not None:
+        return env.get(a)
+    k = e.get("k")
+    if k == "Lit" and e["lit"]["t"] == "bool":
+        return e["lit"]["v"]
+    if k == "Path" and e.get("res_kind") == "Local" and lets and e.get("res") in lets and depth < 4:
+        return bool3(lets[e["res"]], classify, env, lets, depth + 1)
+    if k == "Unary" and e["op"] == "Not":
+        v = bool3(e["a"], classify, env, lets, depth)
+        return None if v is None else not v
+    if k == "Binary" and e["op"] in ("And", "Or"):
+        x = bool3(e["a"], classify, env, lets, depth)
+        y = bool3(e["b"], classify, env, lets, depth)
+        if e["op"] == "And":
+            return False if (x is False or y is False) else (True if (x is True and y is True) else None)
+        return True if (x is True or y is True) else (False if (x is False and y is False) else None)
+    return None
+
+
+def path_forces(pm, node, classify, atom, value, lets=None):
+    """True if `node` can only be reached when `atom` has `value`: assuming the opposite contradicts one of the path constraints"""
+    for c, want in path_constraints(pm, node):
+        v = bool3(c, classify, {atom: not value}, lets)
+        if v is not None and v != want:
+            return True
+    return False
 
 
 
